@@ -54,3 +54,34 @@ def replay_case(rp, prop, props=None):
     want = rp.get('sig', {}).get('kind')
     return {'violated': any(k == want for _, k, _ in mine) if want else bool(mine), 'violations': mine,
             'status': r.status, 'ordered': lib.names(r.e, True), 'insertion': lib.names(r.e, False)}
+
+
+def run_repo_tests(prop):
+    """the repository's own test suite under the monitors (pytest -p mxverif.pytest_monitor); report -> violations"""
+    import json
+    import os
+    import subprocess
+    import tempfile
+    repo = os.environ.get('VERIF_REPO', '/repo')
+    verif = os.path.dirname(os.path.dirname(os.path.dirname(os.path.abspath(__file__))))
+    fd, rep = tempfile.mkstemp(prefix='mxverif-pytest-', suffix='.json')
+    os.close(fd)
+    env = dict(os.environ, MXVERIF_REPORT=rep, PYTHONPATH=os.pathsep.join([repo, verif]))
+    try:
+        p = subprocess.run(['/venv/bin/python', '-m', 'pytest', '-q', '-p', 'no:cacheprovider', '-p', 'mxverif.pytest_monitor',
+                            '-x', '--timeout=600'], cwd=repo, env=env, capture_output=True, timeout=900)
+        data = json.load(open(rep)) if os.path.getsize(rep) else {'stats': {}, 'witnesses': []}
+    finally:
+        os.unlink(rep)
+    viol = []
+    for w in data['witnesses']:
+        if w['property'] != prop:
+            continue
+        test = w.get('test', '').split('::')[-1].split(' ')[0]
+        viol.append({'sig': {'type': w['class'], 'kind': w['kind'], 'mech': 'repository-test', 'test': test},
+                     'case': w, 'detail': w})
+    st = data['stats']
+    n = st.get('invariant_evaluations', 0) if prop == 'C06' else st.get('checked_nodes_validated', 0)
+    return {'evaluations': n, 'distinct_nontrivial': n, 'violations': viol,
+            'samples': [], 'counters': {'repo_tests_' + k: v for k, v in st.items()},
+            'repo_tests_exit': data.get('exitstatus')}
